@@ -206,6 +206,67 @@ def run(cx):
         ml = [s for s in cxx.all_stmts(b) if s["k"] == "decl" and s["name"] == "__redu_melody_len"]
         r.check(bool(ml) and "sizeof" in show(ml[0]["init"]), f"melody[{name}]/length=table-length", (em, em.func("_emit_block")), "score length must be the array length")
 
+    # ---- C16-KERNEL --------------------------------------------------------------------------
+    # the sweep and beep commands evaluated with C semantics over a grid of arguments: the clauses of the property read off
+    # the recorded tone/noTone/delay events
+    from .. import ckern
+    r = cx.rule("C16-KERNEL", "sweep(start, end, duration, steps) sounds exactly `steps` tones (positive frequencies), monotone from start to end, first = start when steps > 1, last = end, total delay <= duration, silent with get_state false afterwards; beep(f, on, off, times) sounds exactly `times` tones of f with on-delays inside and off-delays only between (grid of arguments, firmware kernel evaluated with C semantics)", floor=60, exhaustive=True)
+    b0 = l2.functions_of(pe.emit_program(setup=[l2.decl_node("Buzzer")], loop=[]).text, ["setup"])["setup"][0]["body"]
+    genv = lambda: {"__buzzer_state_dev": 0, "__buzzer_current_dev": 0.0, "__buzzer_last_dev": 440.0}
+    gty = {"__buzzer_state_dev": "bool", "__buzzer_current_dev": "float", "__buzzer_last_dev": "float"}
+    res = pe.emit_program(setup=[l2.decl_node("Buzzer"), pe.ir_classes()[0]["BuzzerSweep"](name="dev", start_hz="H_a", end_hz="H_b", duration_ms="H_d", steps="H_s")], loop=[])
+    sbody = l2.functions_of(res.text, ["setup"])["setup"][0]["body"][len(b0):]
+    n_bad = 0
+    for a_, b_ in ((200, 400), (400, 200), (300, 300), (100, 1000), (880, 440)):
+        for d_, s_ in ((300, 3), (100, 8), (250, 4), (50, 30), (1000, 7), (10, 4), (5, 10), (0, 5), (120, 1), (77, 2)):
+            env = genv()
+            env.update({"H_a": a_, "H_b": b_, "H_d": d_, "H_s": s_})
+            k = ckern.Kern(env=env, types=dict(gty))
+            try:
+                k.block(sbody)
+            except ckern.KernUnsupported as e:
+                raise AnalysisError(f"sweep kernel left the evaluable subset: {e}")
+            tones = [ev[1][1] for ev in k.events if ev[0] == "tone"]
+            total = sum(ev[1][0] for ev in k.events if ev[0] == "delay")
+            mono = all((x <= y) for x, y in zip(tones, tones[1:])) if b_ >= a_ else all((x >= y) for x, y in zip(tones, tones[1:]))
+            last_is_notone = bool(k.events) and k.events[-1][0] == "noTone"
+            good = len(tones) == s_ and mono and tones[-1] == b_ and (s_ == 1 or tones[0] == a_) and total <= d_ and last_is_notone and not k.env["__buzzer_state_dev"] and k.env["__buzzer_current_dev"] == 0
+            if good:
+                r.ok(None)
+            else:
+                n_bad += 1
+                if n_bad <= 3:
+                    r.fail("sweep/kernel-law", (em, em.func("_emit_block")), f"sweep({a_}, {b_}, duration_ms={d_}, steps={s_}): tones {tones[:6]}{'...' if len(tones) > 6 else ''} ({len(tones)}), total delay {total} ms, ends silent={last_is_notone and not k.env['__buzzer_state_dev']}", detail={"start": a_, "end": b_, "duration": d_, "steps": s_})
+                else:
+                    r.stat.obligations += 1
+                    r.stat.failed += 1
+    res = pe.emit_program(setup=[l2.decl_node("Buzzer"), pe.ir_classes()[0]["BuzzerBeep"](name="dev", frequency="H_f", on_ms="H_on", off_ms="H_off", times="H_t")], loop=[])
+    bbody = l2.functions_of(res.text, ["setup"])["setup"][0]["body"][len(b0):]
+    for f_ in (440, 1000, 0, -5):
+        for on_, off_, t_ in ((100, 50, 3), (10, 0, 1), (0, 5, 2), (20, 20, 0), (30, 10, 5)):
+            env = genv()
+            env.update({"H_f": f_, "H_on": on_, "H_off": off_, "H_t": t_})
+            k = ckern.Kern(env=env, types=dict(gty))
+            try:
+                k.block(bbody)
+            except ckern.KernUnsupported as e:
+                raise AnalysisError(f"beep kernel left the evaluable subset: {e}")
+            names = [ev[0] for ev in k.events]
+            tones = [ev[1][1] for ev in k.events if ev[0] == "tone"]
+            delays = [ev[1][0] for ev in k.events if ev[0] == "delay"]
+            want_tones = [f_] * t_ if f_ > 0 else []
+            want_delay = (on_ * t_ + off_ * max(0, t_ - 1)) if f_ > 0 else None
+            good = tones == want_tones and not k.env["__buzzer_state_dev"] and (want_delay is None or sum(delays) == want_delay) and ("tone" not in names or names[len(names) - 1 - names[::-1].index("tone"):].count("noTone") >= 1)
+            if good:
+                r.ok(None)
+            else:
+                n_bad += 1
+                if n_bad <= 6:
+                    r.fail("beep/kernel-law", (em, em.func("_emit_block")), f"beep({f_}, on_ms={on_}, off_ms={off_}, times={t_}): tones {tones}, delays {delays}, state afterwards {bool(k.env['__buzzer_state_dev'])}; expected {len(want_tones)} tone(s){'' if want_delay is None else f' and {want_delay} ms of delay'}", detail={"frequency": f_, "on": on_, "off": off_, "times": t_})
+                else:
+                    r.stat.obligations += 1
+                    r.stat.failed += 1
+
     # ---- C16-MELODY --------------------------------------------------------------------------
     r = cx.rule("C16-MELODY", "the melody names accepted by the parser, the emitter's score table and the documented tunes agree; every score has a positive tempo, non-empty notes with frequency >= 0 and beat > 0, and the documented shape", floor=20)
     pnames = lit.table(pm, "_BUZZER_MELODIES")
